@@ -84,6 +84,26 @@ def gen(rng, tier):
                ["b", {"in": [["input", f1(other)]], "out": [["output", f1(other)]]}]]
         edges = rng.choice([[["a", "b"]], [["a", "a"], ["a", "b"]], [["a", "b"], ["b", "a"]], [["b", "b"], ["a", "b"], ["a", "b"]]])
         cases.append({"kind": "rand", "nodes_t": tys, "edges": edges})
+    # shapes that differ only by trailing (or leading) axes of length 0 or 1; zero-length axes in general
+    for _ in range(40 if tier == "quick" else 400):
+        base = [rng.choice([0, 1, 2, 3, 5]) for _ in range(rng.choice([0, 1, 1, 2, 3]))]
+        k = rng.choice([0, 1, 2])
+        pad = [rng.choice([0, 0, 1])] * k
+        other = rng.choice([base + pad, pad + base, base])
+        f1 = (lambda s: {"seq": list(s)}) if rng.random() < 0.2 else (lambda s: list(s))
+        tys = [["a", {"in": [["input", f1(base)]], "out": [["output", f1(base)]]}],
+               ["b", {"in": [["input", f1(other)]], "out": [["output", f1(other)]]}]]
+        edges = rng.choice([[["a", "b"]], [["b", "a"]], [["a", "a"], ["a", "b"]], [["a", "b"], ["b", "a"]]])
+        cases.append({"kind": "rand", "nodes_t": tys, "edges": edges})
+    # very long sequential graphs (chain / ring of > 1000 nodes): any node count
+    for j, kind in enumerate(["chain", "ring", "chain"] if tier == "quick" else ["chain", "ring", "chain", "ring", "chain", "ring"]):
+        n = rng.choice([1100, 1300, 1700])
+        sh = [rng.choice([1, 2, 3])]
+        tys = [[f"n{i}", {"in": [["input", list(sh)]], "out": [["output", list(sh)]]}] for i in range(n)]
+        edges = [[f"n{i}", f"n{i + 1}"] for i in range(n - 1)] + ([[f"n{n - 1}", "n0"]] if kind == "ring" else [])
+        if j >= 2:                  # one mismatch deep inside
+            tys[n - 7][1]["in"] = [["input", [sh[0] + 1]]]
+        cases.append({"kind": "rand", "nodes_t": tys, "edges": edges})
     if tier == "thorough":
         N = 3000
     else:
